@@ -249,3 +249,17 @@ prop('C01',
               'the role-specific flow of handshake() (async, over snow): that BOTH roles reach this check is read, not encoded',
               'the dialed-peer comparison in tcp::connection::negotiate_connection (async)', 'ed25519 strictness (small-order keys, malleability)'],
      )
+
+prop('C13',
+     explanation='Bounded model checking of the request ledger kernel of the real RequestResponseProtocol (on_send_request, on_connection_established, '
+                 'on_connection_closed, on_dial_failure, on_substream_open_failure with the real TransportService / ConnectionHandle underneath) '
+                 'against a ledger of accepted requests and reported outcomes.',
+     units=[
+         dict(harness='c13_request_ledger', covers=['c13.accepted', 'c13.refused', 'c13.connected', 'c13.disconnected', 'c13.dial-failure', 'c13.open-failure'],
+              min_paths=100, split=4, params={'quick': {'steps': 4}, 'thorough': {'steps': 6}}, conform={'quick': 200, 'thorough': 2000}, nvals=16),
+     ],
+     assumptions=['tokio mpsc channels are modelled as bounded FIFOs that are never full in these scenarios; Sender::send resolves on first poll'],
+     bounds={'peers': 1, 'events': 'quick 4, thorough 6 of send(dial/no dial) / connect / disconnect / dial failure / substream-open failure'},
+     outside=['responses, timeouts, cancellation, inbound requests and their bound (futures over substream I/O and tokio timers)',
+              'several peers', 'the run() select loop'],
+     )
